@@ -46,6 +46,20 @@ CHECKS.update({
          "Model-based search; each burst must yield exactly burst / NOPE (v1, noise constants) / nothing (v0) per the counter, period filter and mute flags; invalid FAKE_DROP must be refused without state change.",
          "Whether muted bursts consume drop budget is unspecified: both accepted.", "3/C18"),
 })
+CHECKS.update({
+ "C09": ("exploration", "Hypothesis-generated handler-duration patterns / start frames / periods / link sets run through the real worker loop under a virtual monotonic clock; absolute-deadline reference model",
+         "The harness owns time (monotonic_ns, Event.wait, Thread are doubles), so tick times are exact integers: every tick's frame number, time, indication payload/recipient/ordering is compared with the model over generated duration patterns incl. overruns, wraps and restarts.",
+         "Sending takes no virtual time; P may be 4 614 999..4 615 001 ns but must be constant within a run.", "3/C09"),
+ "C14": ("exploration", "Hypothesis raw-input fuzzing of every receive path with an 'only ValueError / nothing escapes' oracle, hostile-input sessions with recovery script checked against TrxModel, and action-sequence fuzzing of the unmodified trx_if.c callbacks under ASan/UBSan",
+         "Generated-input search over byte strings and structured mutations at every entry point, and over where in a valid session the hostile input arrives (each followed by traffic through the clock path and a strictly checked recovery); the trxcon side runs under sanitizers so out-of-bounds access is a visible failure.",
+         "No MSan (stale-but-in-bounds reads are invisible); settings after hostile control input are unknown until the recovery script has run.", "3/C14"),
+ "C16": ("exploration", "Hypothesis-generated protocol definitions (programs) instantiated as real codec objects and interpreted by an independent layout interpreter; round-trip, canonical re-encoding, length-exactness and negative tests per definition",
+         "Recursive generator of definition trees (depth <= 3) with encodable-by-construction values; encoder compared octet for octet with refs/codec_ref, decoder by round trip, plus every short prefix, trailing octets, fixed-value mismatch, unencodable values and over-wide bit-field values.",
+         "Only compositions demonstrated by the repository's own users are generated (flexible fields at the tail, exact bit-field partitions).", "3/C16"),
+ "C17": ("exploration", "Hypothesis value dicts per PDU class against a hand-transcribed documented layout (v0/v1/v2 incl. batched sub-PDUs), reserved-bit noise, wrong-version rejection, and differential against the message codec's datagrams",
+         "Generated-input search over all defined modulation codes, NOPE, 0..8 batched sub-PDUs; encoder vs layout octet for octet, round trip, reserved bits, version nibble; every valid v0/v1 datagram of data_msg (legacy on/off) must be accepted with identical fields.",
+         "Reserved modulation codes (0b0111, 0b111x) are not asserted; v2 layout reference is a transcription of the TRXDv2 field order.", "3/C17"),
+})
 NOT_YET = {}
 
 def main():
